@@ -369,8 +369,8 @@ func genCodec(r *kit.Rng, maxLen int) kit.Case {
 			addr := fmt.Sprintf("http://%s:%d", []string{"refinery-1", "10.0.0.7", "[fe80::1]", "host.example.com"}[r.Intn(4)], 8081+r.Intn(3))
 			id := fmt.Sprintf("%08x", r.Next()&0xffffffff)
 			ops = append(ops, fmt.Sprintf("enc %s %s %s", []string{"R", "U"}[r.Intn(2)], kit.Enc(addr), kit.Enc(id)))
-		case 1: // arbitrary strings, address without a comma (id may have any)
-			ops = append(ops, fmt.Sprintf("enc %s %s %s", []string{"R", "U"}[r.Intn(2)], kit.Enc(randStr(r, 8, false)), kit.Enc(randStr(r, 8, true))))
+		case 1: // arbitrary strings, id without a comma (the address may have any)
+			ops = append(ops, fmt.Sprintf("enc %s %s %s", []string{"R", "U"}[r.Intn(2)], kit.Enc(randStr(r, 8, true)), kit.Enc(randStr(r, 8, false))))
 		case 2: // arbitrary strings, commas anywhere
 			ops = append(ops, fmt.Sprintf("enc %s %s %s", []string{"R", "U"}[r.Intn(2)], kit.Enc(randStr(r, 8, true)), kit.Enc(randStr(r, 8, true))))
 		case 3: // arbitrary wire strings: short, no comma, leading comma, unknown action, old format
